@@ -2,7 +2,7 @@
 META = {
     "level": "exploration",
     "technique": "runtime monitoring of real directory trees on an in-process grid: authority oracle on every node reached through read-caps, behavioural write attempts, plaintext secret search and an independent rwcap decryptor",
-    "text": "Builds random directory trees (depth <= 4) on a grid of real storage servers with CHK/LIT/SDMF/MDMF files, SDMF/MDMF/immutable/literal directories and unknown future caps (with and without ro./imm. prefixes, in rw and ro slots), linked through set_node/set_uri/create_subdirectory/initial children with write-caps, read-caps and 'no-write' metadata. The root is opened through its read-cap (fresh client and the building client) and immutable/inner directories through theirs; every transitively reached child must report read-only authority (is_readonly, get_write_uri None, cap string not a write cap, no writekey in any reported string) and real write attempts through such nodes must fail and leave the object unchanged. The plaintext of every mutable directory is downloaded with the read-cap only: no child write-cap or writekey occurs in it, and a decryptor re-typed from the specification (tagged SHA-256d pair hash of salt and key, AES-128-CTR) reproduces every child write-cap from the writekey and none from anything derivable from the read-cap. Sampled, not exhaustive.",
+    "text": "Builds random directory trees (depth <= 4) on a grid of real storage servers with CHK/LIT/SDMF/MDMF files, SDMF/MDMF/immutable/literal directories and unknown future caps (with and without ro./imm. prefixes, in rw and ro slots), linked through set_node/set_uri/create_subdirectory/initial children with write-caps, read-caps and 'no-write' metadata. The root is opened through its read-cap (fresh client and the building client) and immutable/inner directories through theirs; every transitively reached child must report read-only authority (is_readonly, get_write_uri None, cap string not a write cap, no writekey in any reported string) and real write attempts through such nodes must fail and leave the object unchanged. The plaintext of every mutable directory is downloaded with the read-cap only: no child write-cap or writekey occurs in it (this includes lone unknown-format caps handed over without ro./imm. prefix in the write-cap slot only, through set_uri, set_children, create_subdirectory(initial_children) and create_dirnode(initial_children): refused or accepted, the string must never be visible to readers), and a decryptor re-typed from the specification (tagged SHA-256d pair hash of salt and key, AES-128-CTR) reproduces every child write-cap from the writekey and none from anything derivable from the read-cap. Sampled, not exhaustive.",
     "note": "Trusts the `cryptography` AES primitive, the hash tags re-typed in _dir.py/_caps.py and the in-process wire; read-key-derived material is a fixed list of 11 derivations (tagged-hash and raw-key use), not all computable functions.",
 }
 LEVEL = "exploration"
@@ -26,6 +26,13 @@ class Obj(object):
         return self.kind.startswith("dir")
 
 
+def writecap_allegation(pair):
+    """An unknown cap handed over in the write-cap slot WITHOUT ro./imm. prefix is alleged to carry write authority
+    (with a prefix, a lone cap is by documented rule treated as if given in the read-cap slot)."""
+    rw = pair[0]
+    return bool(rw) and not rw.startswith((b"ro.", b"imm."))
+
+
 class Link(object):
     def __init__(self, obj, rw, how, md):
         self.obj, self.rw, self.how, self.md = obj, rw, how, md
@@ -39,7 +46,7 @@ def run(ck):
                "transport profile; distinct = distinct tree signature; non-trivial = at least one link stored with a write-cap")
     i = 0
     ncases = 0
-    while ck.more(min_cases=20):
+    while ck.more(min_cases=30):
         i += 1
         if not ck.mine(i):
             continue
@@ -68,7 +75,9 @@ def run(ck):
                        "readkey-material-cannot-recover-rwcap", "write-attempt-through-ro-node")
     ck.require_reach("ro-walk-depth>=3", "ro-walk-mutable-file", "ro-walk-mutable-dir", "ro-walk-unknown",
                      "ro-walk-immutable-dir", "rw-walk-writeable-child", "no-write-link", "unknown-with-rw-stored",
-                     "mdmf-directory", "sdmf-directory", "literal-directory", "immutable-root-walk")
+                     "mdmf-directory", "sdmf-directory", "literal-directory", "immutable-root-walk",
+                     "lone-unknown-writecap-add-attempted", "lone-unknown-writecap-via-set_uri", "lone-unknown-writecap-via-set_children",
+                     "lone-unknown-writecap-via-initial-children")
 
 
 def one_case(ck, g, rng, caseno):
@@ -99,6 +108,11 @@ def one_case(ck, g, rng, caseno):
         if immutable_only:
             ro = rng.choice([b"imm.", b"imm.", b"ro.", b""]) + rng.choice([b"x-tahoe-future:", b"lafs://from_the_future/"]) + b"R-" + t
             pair = (None, ro)
+        elif rng.random() < .35:
+            # a LONE cap of unknown format, no ro./imm. prefix, in the WRITE-cap slot only: the directory cannot attenuate
+            # it; whatever the API does with it, readers must never get to see the string
+            secret = "".join(rng.choice("abcdefghijklmnopqrstuvwxyz234567") for _ in range(16)).encode()
+            pair = (rng.choice(D.UNKNOWN_SCHEMES[2:]) + b"LONE-W-" + secret + b"-" + t, None)
         else:
             pair = D.gen_unknown_pair(rng, t)
         o = Obj("unknown", None, None)
@@ -160,20 +174,44 @@ def one_case(ck, g, rng, caseno):
         pn = parent.node
         if o.kind == "unknown":
             rw, ro = o.pair
+            lone = writecap_allegation(o.pair) and not ro
+            via = rng.choice(["set_uri", "set_children", "initial-children"])
+            if lone:
+                ck.hit("lone-unknown-writecap-add-attempted")
+                ck.hit("lone-unknown-writecap-via-" + via)
+            slots = "both" if rw and ro else "rw" if rw else "ro"
+            box = None
             try:
-                D.ok(g, pn.set_uri(name, rw, ro, md), "set_uri unknown")
-            except D.OpFailed as e:
-                if e.check(CapConstraintError):
+                if via == "set_uri":
+                    D.ok(g, pn.set_uri(name, rw, ro, md), "set_uri unknown")
+                elif via == "set_children":
+                    D.ok(g, pn.set_children({name: (rw, ro) if md is None else (rw, ro, md)}), "set_children unknown")
+                else:
+                    # handed to a creation call: packed by NodeMaker.create_new_mutable_directory, not by Adder
+                    ver = rng.choice([D.SDMF, D.MDMF])
+                    sub = D.ok(g, pn.create_subdirectory(name, {"u": (c.create_node_from_uri(rw, ro), {})}, mutable_version=ver,
+                                                         metadata=md), "create_subdirectory(initial unknown)")
+                    box = Obj("dir-mdmf" if ver == D.MDMF else "dir-sdmf", sub.get_uri(), sub)
+                    allobjs.append(box)
+            except (D.OpFailed, CapConstraintError) as e:
+                if isinstance(e, CapConstraintError) or e.check(CapConstraintError):
                     ck.hit("unknown-rejected")
+                    if lone:
+                        ck.hit("lone-unknown-writecap-refused")
                     return None
                 raise
-            except CapConstraintError:
-                ck.hit("unknown-rejected")
-                return None
+            if lone:
+                ck.observe("lone-unknown-writecap-accepted")
+            if box is not None:
+                inner_rw = rw if (rw and ro) else None
+                if inner_rw:
+                    ck.hit("unknown-with-rw-stored")
+                box.links["u"] = Link(o, inner_rw, "unknown-%s-initial-child" % slots, {})
+                return Link(box, None if nowrite else box.cap, "create_subdirectory(initial unknown)" + ("+no-write" if nowrite else ""), eff_md)
             exp_rw = rw if (rw and ro and not nowrite) else None
             if exp_rw:
                 ck.hit("unknown-with-rw-stored")
-            return Link(o, exp_rw, "unknown-%s" % ("both" if rw and ro else "rw" if rw else "ro"), eff_md)
+            return Link(o, exp_rw, "unknown-%s-%s" % (slots, via), eff_md)
         W = o.cap if o.info.is_write else None
         R = o.info.readonly
         how = rng.choice(["node", "node", "uri-both", "uri-rw-only", "uri-ro-only", "uri-writecap-in-ro-slot",
@@ -224,7 +262,25 @@ def one_case(ck, g, rng, caseno):
                 md = D.gen_metadata(rng)
                 initial[name] = (o.node, md)
                 init_links[D.nfc(name)] = Link(o, o.cap if o.info.is_write else None, "initial-children", md)
-        node = D.ok(g, c.create_dirnode(initial, version=version), "create_dirnode")
+        lone_init = None
+        if rng.random() < .2:
+            lone_init = new_unknown()
+            lname = D.gen_name(rng)
+            if writecap_allegation(lone_init.pair) and not lone_init.pair[1]:
+                ck.hit("lone-unknown-writecap-add-attempted")
+                ck.hit("lone-unknown-writecap-via-create_dirnode")
+            initial[lname] = (c.create_node_from_uri(*lone_init.pair), {})
+        try:
+            node = D.ok(g, c.create_dirnode(initial, version=version), "create_dirnode")
+            if lone_init is not None:
+                rw_, ro_ = lone_init.pair
+                init_links[D.nfc(lname)] = Link(lone_init, rw_ if (rw_ and ro_) else None, "unknown-initial-children", {})
+        except (D.OpFailed, CapConstraintError) as e:
+            if lone_init is None or not (isinstance(e, CapConstraintError) or e.check(CapConstraintError)):
+                raise
+            ck.hit("unknown-rejected")
+            del initial[lname]
+            node = D.ok(g, c.create_dirnode(initial, version=version), "create_dirnode")
         me = Obj("dir-mdmf" if version == D.MDMF else "dir-sdmf", node.get_uri(), node)
         me.links.update(init_links)
         allobjs.append(me)
@@ -311,10 +367,11 @@ def one_case(ck, g, rng, caseno):
                 if any(D.leaks(link.obj.info.writekey, s) for s in strings):
                     ck.violation("readonly-child-reveals-writekey", "%s: a string reported by child %r carries the writekey"
                                  % (opener, path[-1]), wit)
-            if link is not None and link.obj.kind == "unknown" and link.obj.pair[0] and link.obj.pair[1]:
+            if link is not None and link.obj.kind == "unknown" and writecap_allegation(link.obj.pair):
                 secret = link.obj.pair[0]
                 if any(secret in s for s in strings):
-                    ck.violation("readonly-child-reveals-writekey", "%s: unknown child %r reports the rw cap string" % (opener, path[-1]), wit)
+                    ck.violation("unknown-write-cap-visible-to-readers", "%s: unknown child %r, given as %r in the write-cap slot, shows it "
+                                 "in a slot readable without write authority (uri=%r)" % (opener, path[-1], D.show(secret), D.show(child.get_uri())), wit)
         else:
             if wu is not None and link is not None and wu == link.rw:
                 ck.hit("rw-walk-writeable-child")
@@ -438,8 +495,8 @@ def one_case(ck, g, rng, caseno):
     for o in allobjs:
         if o.info is not None and o.info.is_write:
             secrets.append(("write-cap of a %s" % o.kind, o.cap, o.info.writekey))
-        if o.kind == "unknown" and o.pair[0] and o.pair[1]:
-            secrets.append(("unknown rw cap", o.pair[0], None))
+        if o.kind == "unknown" and writecap_allegation(o.pair):
+            secrets.append(("unknown cap given in the write-cap slot" + ("" if o.pair[1] else " only"), o.pair[0], None))
     reader = g.make_client(k=1, happy=1, n=nserv)
     nontrivial = False
     for o in allobjs:
@@ -521,3 +578,5 @@ def one_case(ck, g, rng, caseno):
 #   c18-rwcap-not-encrypted             _encrypt_rw_uri stores the plaintext          -> directory-plaintext-contains-write-cap
 #   c18-nodecache-keyed-by-fingerprint  NodeMaker cache key = last cap field (shared by write- and read-cap): a client that
 #                                       holds the write node gets it back for the read-cap -> readonly-path-yields-writeable-child
+#   seeded/C18-2                        UnknownNode keeps going after MustNotBeUnknownRWError: lone unprefixed unknown write-cap lands
+#                                       in the cleartext ro slot -> directory-plaintext-contains-write-cap, unknown-write-cap-visible-to-readers
